@@ -4,6 +4,8 @@
 package clusters
 
 import (
+	"k8s.io/apiserver/pkg/authorization/authorizer"
+
 	proxyv1alpha1 "github.com/kubewharf/kubegateway/pkg/apis/proxy/v1alpha1"
 	"github.com/kubewharf/kubegateway/pkg/flowcontrols/remote"
 	"github.com/kubewharf/kubegateway/pkg/ratelimiter/clientsets"
@@ -40,4 +42,36 @@ func VerifC16Stop(c *ClusterInfo) {
 			fc.Stop()
 		}()
 	}
+}
+
+// VerifC16Resolve: what a request resolves to on this cluster - the upstreams of the picker MatchAttributes builds
+// for the dispatch policy the request matches, which of them Pop can load, the flow control's name and limiter.
+func VerifC16Resolve(c *ClusterInfo, a authorizer.Attributes) (upstreams []string, loaded []string, flowControlName, limiter string, picker EndpointPicker, err error) {
+	p, err := c.MatchAttributes(a)
+	if err != nil {
+		return nil, nil, "", "", nil, err
+	}
+	s := p.(*endpointPickStrategy)
+	for _, ep := range s.upstreams {
+		if _, ok := c.Endpoints.Load(ep); ok {
+			loaded = append(loaded, ep)
+		}
+	}
+	func() {
+		defer func() {
+			if r := recover(); r != nil {
+				limiter = "nil"
+			}
+		}()
+		limiter = s.flowControl.String()
+	}()
+	return append([]string{}, s.upstreams...), loaded, s.flowControlName, limiter, p, nil
+}
+
+// VerifC16MarkHealthy reports every endpoint of the cluster healthy, as a successful health check does.
+func VerifC16MarkHealthy(c *ClusterInfo) {
+	c.Endpoints.Range(func(name string, info *EndpointInfo) bool {
+		info.UpdateStatus(true, "", "")
+		return true
+	})
 }
